@@ -80,7 +80,7 @@ var c19UserNames = []string{"f", "c19-fn", "add2", "my-func", "g1", "do-it!", "x
 
 func c19RunRandom(w *fw.W, idx int) {
 	r := w.RNG(idx, "main")
-	switch r.Intn(10) {
+	switch r.Intn(12) {
 	case 0, 1, 2, 3, 4: // shadowing contexts
 		cases := c19ShadowCases()
 		sc := cases[r.Intn(len(cases))]
@@ -90,9 +90,12 @@ func c19RunRandom(w *fw.W, idx int) {
 	case 5, 6, 7: // defun signatures
 		c19RandomUser(w, r)
 		w.Count("sampled_defun_cases", 1)
-	default: // registry names under wrappers
+	case 8, 9: // registry names under wrappers
 		c19RandomRegistry(w, r)
 		w.Count("sampled_registry_cases", 1)
+	default: // a name defined more than once
+		c19RandomRedef(w, r)
+		w.Count("sampled_redefined_cases", 1)
 	}
 }
 
